@@ -1,21 +1,50 @@
 """property -> rule runners.  Each runner(F, rep, tier) adds obligations to the report."""
 import rules_layout
 from rules_layout import LayoutRules, object_classes
+import flow
+import roles
+import rules_pipeline as RP
+import rules_file as RF
+import rules_factory as RD
+from facts import AnalysisBroken, fmt_path
+from core import short
 
 FILESTAT = 'Vector::BLF::FileStatistics'
-
-_layout_cache = {}
-
-
-def _LR(F, rep):
-    return LayoutRules(F, rep)
+LOGCONT = 'Vector::BLF::LogContainer'
+FILE = 'Vector::BLF::File'
 
 
-def run_layout(F, rep, tier, write_rules=(), read_rules=(), roundtrip=False, reencode=False, extra_classes=()):
-    LR = _LR(F, rep)
-    classes = object_classes(F) + list(extra_classes)
+class Ctx:
+    """shared analyses, built once per run"""
+    def __init__(self, F):
+        self.F = F
+        self._FL = None
+        self._R = None
+        self._ws = None
+
+    @property
+    def FL(self):
+        if self._FL is None:
+            self._FL = flow.Flow(self.F)
+        return self._FL
+
+    @property
+    def R(self):
+        if self._R is None:
+            self._R = roles.Roles(self.F, self.FL)
+        return self._R
+
+    def ws(self, rep=None):
+        if self._ws is None:
+            self._ws = RP.wait_sites(self.F, self.R)
+        return self._ws
+
+
+def run_layout(F, rep, write_rules=(), read_rules=(), roundtrip=False, reencode=False, extra_classes=(), only=None):
+    LR = LayoutRules(F, rep)
+    classes = (object_classes(F) if only is None else list(only)) + list(extra_classes)
     for c in classes:
-        for fn in ('read', 'write'):
+        for fn in ('read', 'write', 'calculateObjectSize', 'calculateHeaderSize'):
             for f in F.method(c, fn):
                 rep.saw_function(f['name'])
         if write_rules:
@@ -27,22 +56,233 @@ def run_layout(F, rep, tier, write_rules=(), read_rules=(), roundtrip=False, ree
         if reencode:
             LR.check_reencode(c)
     rep.notes.append('codec classes analysed: %d' % len(classes))
+    return LR
 
 
-def C01(F, rep, tier):
-    run_layout(F, rep, tier, write_rules=('L6',), roundtrip=True, extra_classes=(FILESTAT,))
+# ---------------------------------------------------------------------------------------------
+def C01(F, rep, tier, cx):
+    """L1/L2: read() interpreted over the symbolic output of write() for every class and guard path; L6 length
+    pre-processing; L8 size function well-founded; D1 factory round trip; C1 commit completeness; S3 decode starts at the object start"""
+    run_layout(F, rep, write_rules=('L6', 'L8'), roundtrip=True, extra_classes=(FILESTAT,))
+    RD.D123(F, rep)
+    RF.C1(F, rep, cx.FL)
+    RF.S2S3(F, rep, cx.FL, {'S3'})
 
 
-def C02(F, rep, tier):
-    run_layout(F, rep, tier, read_rules=('L7',), reencode=True, extra_classes=(FILESTAT,))
+def C02(F, rep, tier, cx):
+    """L2r: write() interpreted from the state read() leaves, for every reader path over arbitrary input; L7 nothing dropped"""
+    run_layout(F, rep, read_rules=('L7',), reencode=True, extra_classes=(FILESTAT,))
 
 
-def C03(F, rep, tier):
-    run_layout(F, rep, tier, write_rules=('L3', 'L4', 'L5', 'L6', 'L8', 'B2'), roundtrip=True)
+def C03(F, rep, tier, cx):
+    """L3 bytes emitted == calculateObjectSize(); L4 header bytes == calculateHeaderSize(); L5 pad set and pairing; L6 lengths derived
+    from containers; L8 well-founded size function; B2 write sources bounded; L1 decoding consumes exactly what was emitted"""
+    run_layout(F, rep, write_rules=('L3', 'L4', 'L5', 'L6', 'L8', 'B2'), roundtrip=True)
 
+
+FORMAT_LOGCONTAINER = [('signature', 4), ('headerSize', 2), ('headerVersion', 2), ('objectSize', 4), ('objectType', 4),
+                       ('compressionMethod', 2), (None, 2), (None, 4), ('uncompressedFileSize', 4), (None, 4), ('compressedFile', None)]
+FORMAT_FILESTATISTICS = [('signature', 4), ('statisticsSize', 4), ('apiNumber', 4), ('applicationId', 1), ('compressionLevel', 1),
+                         ('applicationMajor', 1), ('applicationMinor', 1), ('fileSize', 8), ('uncompressedFileSize', 8), ('objectCount', 4),
+                         ('applicationBuild', 4), ('measurementStartTime', 16), ('lastObjectTime', 16), ('restorePointsOffset', 8), (None, 64)]
+
+
+def format_table(F, rep, LR, cls, table, rule, total=None):
+    I, paths = LR.write_paths(cls)
+    paths = [p for p in paths if not p.thrown]
+    rep.count(rule)
+    site = LR.fnsite(cls, 'write')
+    if len(paths) != 1:
+        rep.ob(rule, short(cls) + '|layout', False, site, '%s::write has %d paths; the format has one layout' % (short(cls), len(paths)))
+        return
+    items = [it for it in paths[0].items]
+    pad = rules_layout.trailing_pad(items, paths[0].menv.get(('objectSize',)))
+    if pad is not None:
+        items = items[:-1]
+    problems = []
+    if len(items) != len(table):
+        problems.append('%d items emitted, the format has %d' % (len(items), len(table)))
+    for i, (it, (name, width)) in enumerate(zip(items, table)):
+        got_name = it.path[-1] if it.path else None
+        if name is not None and got_name != name:
+            problems.append('position %d: format has %s, code emits %s' % (i, name, got_name))
+        if width is not None and not (it.width.is_const() and it.width.c == width):
+            problems.append('position %d (%s): format width %d, code emits %r' % (i, name or 'reserved', width, it.width))
+        if width is None and it.kind != 'bytes':
+            problems.append('position %d: format has a variable payload, code emits %s' % (i, it.desc()))
+    if total is not None:
+        tot = rules_layout.total(items)
+        if not (tot.is_const() and tot.c == total):
+            problems.append('total %r bytes, the format has %d' % (tot, total))
+    rep.ob(rule, short(cls) + '|layout', not problems, site,
+           '%s::write emits exactly the format layout (%d items%s%s)' % (short(cls), len(table), ', %d bytes' % total if total else '',
+                                                                        ', padded to 4' if pad is not None else '') if not problems else
+           '%s::write deviates from the file format: %s' % (short(cls), '; '.join(problems)), nontrivial=True)
+
+
+def C04(F, rep, tier, cx):
+    """F1/F2 container and statistics layouts equal the format tables; L3/L4/L5 on LogContainer; F3 method/level flow; F4 cut size flow;
+    F5/F6 who may write the compressed file / the uncompressed stream; E2 compress2 result checked"""
+    LR = run_layout(F, rep, write_rules=('L3', 'L4', 'L5', 'L6', 'B2'), roundtrip=True, only=[LOGCONT])
+    format_table(F, rep, LR, LOGCONT, FORMAT_LOGCONTAINER, 'F1')
+    format_table(F, rep, LR, FILESTAT, FORMAT_FILESTATISTICS, 'F2', total=144)
+    stat_size(F, rep)
+    RF.F3F4(F, rep, cx.FL)
+    RF.F5F6(F, rep, cx.R)
+    RF.E2B3(F, rep, cx.FL, {'E2'})
+
+
+def stat_size(F, rep):
+    rep.count('F2')
+    r = F.rec(FILESTAT)
+    f = [x for x in r['fields'] if x['name'] == 'statisticsSize']
+    v = None
+    if f and isinstance(f[0].get('init'), dict):
+        for n in __import__('facts').walk(f[0]['init']):
+            if 'v' in n:
+                v = n['v']
+    from codec import Interp
+    outs = [o for o in Interp(F, FILESTAT, 'size').run('calculateStatisticsSize') if not o.infeasible]
+    calc = outs[0].ret if len(outs) == 1 else None
+    if f and isinstance(f[0].get('init'), dict) and calc is not None and calc.is_const():
+        if any(n.get('k') == 'Call' and n.get('fn') == 'calculateStatisticsSize' for n in __import__('facts').walk(f[0]['init'])):
+            v = calc.c   # initialised from the size function itself
+    ok = v == 144 and calc is not None and calc.is_const() and calc.c == 144
+    rep.ob('F2', 'FileStatistics|statisticsSize', ok, '%s:%s' % (F.rel(r['file']), f[0]['line'] if f else r['line']),
+           'statisticsSize is initialised to %s and calculateStatisticsSize() folds to %r (format: 144)' % (v, calc), nontrivial=True)
+
+
+def C05(F, rep, tier, cx):
+    """H1 counters bumped exactly once per committed container/object on every path; H2 close() ordering; F2 144-byte statistics layout,
+    read/write symmetric"""
+    RF.H1(F, rep, cx.FL)
+    RF.H2(F, rep, cx.R, cx.FL)
+    LR = run_layout(F, rep, roundtrip=True, only=[], extra_classes=(FILESTAT,))
+    format_table(F, rep, LR, FILESTAT, FORMAT_FILESTATISTICS, 'F2', total=144)
+    stat_size(F, rep)
+
+
+def C06(F, rep, tier, cx):
+    """K2 wait form; K3 notify completeness (role-aware); K4 lock order; K5 end-of-stream on every worker exit a valid session can take;
+    K6 release-before-join; K10 no exception leaves a thread body; T2 request size <= admission threshold (conditional lemma)"""
+    RP.K1(F, rep, cx.R)   # carries the K4|self obligations; K1 itself is C11's
+    rep.obs = [o for o in rep.obs if o['rule'] != 'K1']
+    rep.counts.pop('K1', None)
+    ws = RP.K2(F, rep, cx.R)
+    cx._ws = ws
+    RP.K3(F, rep, cx.R, cx.FL, ws)
+    RP.K4(F, rep, cx.R, cx.FL)
+    RP.K5(F, rep, cx.R, cx.FL, ('BLF',), 'valid-session')
+    RP.K6(F, rep, cx.R, cx.FL, ws)
+    RP.K10(F, rep, cx.R, cx.FL)
+    RP.T2(F, rep, cx.R, cx.FL, ws)
+
+
+def C07(F, rep, tier, cx):
+    """K7 single producer / single consumer per stage and mode; K8 no transfer after end-of-stream; Q2 eof only on the empty branch;
+    K1 all stage state under the stage mutex"""
+    ws = cx.ws()
+    RP.K7(F, rep, cx.R, ws)
+    RP.K8(F, rep, cx.R, cx.FL)
+    RP.Q(F, rep, cx.R, cx.FL)
+    rep.obs = [o for o in rep.obs if o['rule'] != 'Q1']
+    rep.counts.pop('Q1', None)
+    RP.K1(F, rep, cx.R)
+    rep.obs = [o for o in rep.obs if o['rule'] != 'K4']
+    rep.counts.pop('K4', None)
+
+
+def C08(F, rep, tier, cx):
+    """E1 good()-check between every decode and the commit; E2 zlib result and size checked; K5 the worker that hits the short read
+    declares end of stream on whatever way it leaves"""
+    RF.E1(F, rep, cx.FL)
+    RF.E2B3(F, rep, cx.FL, {'E2'})
+    RP.K5(F, rep, cx.R, cx.FL, ('BLF',), 'library-exception')
+
+
+def C09(F, rep, tier, cx):
+    """S1 resynchronisation table implied by the signature constant; S2 unknown-type path advances by the declared size from the object
+    start and returns normally"""
+    RF.S1(F, rep)
+    RF.S2S3(F, rep, cx.FL, {'S2', 'S3'})
+
+
+def C10(F, rep, tier, cx):
+    """B1 every read sink bounded by its buffer; B3 container size invariant; B4 (ptr,len) pairs; B5 raw I/O on trivially copyable types;
+    K10 no exception escapes a thread; K5 end of stream on all worker exits incl. catch(...); T1 progress of the decode loop; DN null checks"""
+    run_layout(F, rep, read_rules=('B1', 'B5'))
+    RF.E2B3(F, rep, cx.FL, {'B3', 'B4'})
+    RP.K10(F, rep, cx.R, cx.FL)
+    RP.K5(F, rep, cx.R, cx.FL, ('BLF', 'alloc', 'other'), 'all-edges')
+    RF.T1(F, rep, cx.FL)
+    RF.DN(F, rep, cx.FL)
+
+
+def C11(F, rep, tier, cx):
+    """K1 lockset on the three stage classes; K9 File fields touched by workers are atomic / stages / phase-exclusive; O1 no use after
+    an ownership sink"""
+    RP.K1(F, rep, cx.R)
+    rep.obs = [o for o in rep.obs if o['rule'] != 'K4']
+    rep.counts.pop('K4', None)
+    RF.K9(F, rep, cx.R, cx.FL)
+    RF.O1O2(F, rep, cx.FL, [RF.U2Q, RF.Q2U, FILE + '::read', FILE + '::write'], rules=('O1',))
+
+
+def C12(F, rep, tier, cx):
+    """P1 finite capacities configured; P2 every insertion preceded by a back-pressure wait; P3 dropOldData on every committing path"""
+    RP.P(F, rep, cx.R, cx.FL, cx.ws())
+
+
+def C13(F, rep, tier, cx):
+    """O2 every owned pointer transferred/deleted/returned exactly once on every path; O3 thread start/join pairing, open/close guards,
+    ~File -> close; O4 ~ObjectQueue drains"""
+    RF.O1O2(F, rep, cx.FL, [RF.U2Q, RF.Q2U, FILE + '::read', FILE + '::write'], rules=('O2',))
+    RF.O3(F, rep, cx.R, cx.FL)
+    RF.O4(F, rep, cx.R, cx.FL)
+
+
+def C14(F, rep, tier, cx):
+    """D4 every serialised scalar has an initialiser; B6 every write source is object state; Z1 skipp writes zeroes"""
+    RD.D4(F, rep)
+    run_layout(F, rep, write_rules=('B6', 'B5'), extra_classes=(FILESTAT,))
+    RF.Z1(F, rep)
+
+
+def C16(F, rep, tier, cx):
+    """Q1 FIFO discipline on the std::queue; Q2 null/eof only on the empty branch; K2/K3 abort atom and notify completeness for the queue"""
+    RP.Q(F, rep, cx.R, cx.FL)
+    qcls = {cx.R.stages['m_readWriteQueue']}
+    ws = RP.K2(F, rep, cx.R, classes=qcls)
+    RP.K3(F, rep, cx.R, cx.FL, ws, classes=qcls)
+
+
+def C17(F, rep, tier, cx):
+    """D1 factory <-> constructor agreement for all enumerators and classes; D2 reserved/unknown -> null; D3 exhaustive switch;
+    D4 complete member initialisation; D5 code flows ctor -> field -> write"""
+    RD.D123(F, rep)
+    RD.D5(F, rep, None)
+    RD.D4(F, rep)
+
+
+ASSUME_THREADS = ['one application thread uses the File API', 'a session is opened with exactly one of in / out',
+                  'user code does not touch public fields of File while a session is open',
+                  'std::mutex / condition_variable operations do not throw']
 
 PROPS = {
     'C01': dict(run=C01, level='other'),
     'C02': dict(run=C02, level='other'),
     'C03': dict(run=C03, level='other'),
+    'C04': dict(run=C04, level='other', assumptions=ASSUME_THREADS),
+    'C05': dict(run=C05, level='other'),
+    'C06': dict(run=C06, level='other', assumptions=ASSUME_THREADS),
+    'C07': dict(run=C07, level='other', assumptions=ASSUME_THREADS),
+    'C08': dict(run=C08, level='other'),
+    'C09': dict(run=C09, level='other'),
+    'C10': dict(run=C10, level='other'),
+    'C11': dict(run=C11, level='other', assumptions=ASSUME_THREADS),
+    'C12': dict(run=C12, level='other'),
+    'C13': dict(run=C13, level='other'),
+    'C14': dict(run=C14, level='other'),
+    'C16': dict(run=C16, level='other', assumptions=ASSUME_THREADS),
+    'C17': dict(run=C17, level='proof'),
 }
